@@ -31,6 +31,7 @@ fn main() {
         Some("replay") => supervisor::cmd_replay(&args[2..]),
         Some("one") => supervisor::cmd_one(&args[2..]),
         Some("selfcheck") => supervisor::cmd_selfcheck(&args[2..]),
+        Some("replaycheck") => supervisor::cmd_replaycheck(&args[2..]),
         Some("hashseed-test") => supervisor::cmd_hashseed_test(),
         _ => {
             eprintln!("usage: sim run <PROP> <quick|thorough> | replay <file> | one <PROP> <idx> | selfcheck <PROP> <n>");
